@@ -420,6 +420,28 @@ def rule_recovery_pairing(ctx: Ctx, rule: str) -> None:
                 ctx.ob(rule, f'{mod}:{qn}/recover@{n}', ok, repo.loc(mod, h), 'i.rewind(i.index - <saved index>)', why,
                        witness="fnmatch('[a', '[a') must be True: an unterminated `[` is re-read as a literal")
     ctx.floor(rule, 'recovering handlers', n, 9)
+    # the look-ahead of _handle_dot only peeks: whatever ends it -- a character that settles the question, an escape that cannot be
+    # read, an escaped separator -- the iterator is put back to where the look-ahead began (decision table, handlers explored)
+    from ..symeval import focus as _fc2
+    hd = repo.func(WP, 'WcParse._handle_dot')
+    pr = [p_ for p_ in hd.params() if p_ != 'self']
+    ev3 = SymEval(repo, inline=False, explore_handlers=True, loop_mode='once', max_paths=20000)
+    rows3 = ev3.tabulate(hd, {pr[0]: Opaque('i'), pr[1]: Opaque('current')}, Obj((WP, 'WcParse'), {}))
+    bad3 = []
+    n3 = 0
+    for p_ in rows3:
+        _fc2(p_)
+        exc = [k for k, e in enumerate(p_.events) if e[0] == 'except']
+        if not exc:
+            continue
+        n3 += 1
+        back = [e for e in p_.events[exc[-1]:] if e[0] == 'call' and e[1].endswith('.rewind') and e[2] and _tag(e[2][0]).startswith('(i.index-')]
+        goes_on = any(e[0] == 'iterend' and e[2] == 'next' for e in p_.events[exc[-1]:])  # the look-ahead simply reads on
+        if not back and not p_.raised and not goes_on:
+            bad3.append(f'after `except {p_.events[exc[-1]][3]}` the look-ahead ends without putting the iterator back')
+    ctx.ob(rule, f'{WP}:WcParse._handle_dot/look-ahead-restored', n3 >= 3 and not bad3, repo.loc(WP, hd.node),
+           'every exceptional end of the look-ahead reaches i.rewind(i.index - <start>)', f'{n3} rows agree' if n3 >= 3 and not bad3 else (sorted(set(bad3))[0] if bad3 else f'{n3} rows'),
+           witness="glob.escape('.\\\\a', unix=False) must still match `.\\a` under FORCEWIN|NODOTDIR: the look-ahead must not swallow the escaped separator")
     pe = repo.func(WP, 'WcParse.parse_extend')
     q = fq(pe)
     rs = [s for s in walk_no_nested(pe.node) if isinstance(s, ast.Assign) and norm_src(s) == 'self.inv_ext = temp_inv_ext']
